@@ -16,7 +16,7 @@ pub mod fasta {
     use core::iter::Iterator as StdIterator;
     use vstd::std_specs::iter::IteratorSpec;
     verus! {
-//@default vis=strip
+//@default vis=strip r12=.
 
 //@item lib::try_opt
 //@item lib::unwrap_or
@@ -243,7 +243,7 @@ pub mod fasta {
 //@fn fasta::Reader::get_buf ret=r tags=C06
 //@spec
         ensures
-            [C06,C01|fasta.get_buf.is_buffer] r@ == self.b(),
+            [C01,C03,C04,C06|fasta.get_buf.is_buffer] r@ == self.b(),
 //@end
 
 //@fn fasta::Reader::_search ret=r tags=C01,C06
@@ -252,9 +252,9 @@ pub mod fasta {
             old(self).buf_reader.wf(),
             partial(old(self).b(), old(self).buf_pos.start as int, old(self).buf_pos.seq_pos@, old(self).search_pos as int),
         ensures
-            [C01,C06|fasta._search.frame] final(self).same_io(old(self)) && final(self).state == old(self).state,
-            [C01|fasta._search.found] r ==> complete(final(self).b(), final(self).buf_pos.start as int, final(self).buf_pos.seq_pos@, final(self).search_pos as int),
-            [C01|fasta._search.not_found] !r ==> partial(final(self).b(), final(self).buf_pos.start as int, final(self).buf_pos.seq_pos@, final(self).search_pos as int)
+            [C01,C03,C04,C05,C06|fasta._search.frame] final(self).same_io(old(self)) && final(self).state == old(self).state,
+            [C01,C03,C04|fasta._search.found] r ==> complete(final(self).b(), final(self).buf_pos.start as int, final(self).buf_pos.seq_pos@, final(self).search_pos as int),
+            [C01,C03,C04|fasta._search.not_found] !r ==> partial(final(self).b(), final(self).buf_pos.start as int, final(self).buf_pos.seq_pos@, final(self).search_pos as int)
                 && at_end(final(self).b(), final(self).search_pos as int),
 //@loop 0 r8=vx_mc
             invariant
@@ -262,9 +262,9 @@ pub mod fasta {
                 self.buf_reader.wf(), bufsize == self.b().len(),
                 vx_mc.hay() == self.b().subrange(self.search_pos as int, self.b().len() as int) && vx_mc.needle() == 10u8,
                 0 <= vx_mc.at() <= vx_mc.hay().len(),
-                [C01|fasta._search.inv.scanned_prefix] partial(self.b(), self.buf_pos.start as int, self.buf_pos.seq_pos@, self.search_pos + vx_mc.at()),
+                [C01,C03,C04|fasta._search.inv.scanned_prefix] partial(self.b(), self.buf_pos.start as int, self.buf_pos.seq_pos@, self.search_pos + vx_mc.at()),
             ensures
-                [C01|fasta._search.loop_exit] partial(self.b(), self.buf_pos.start as int, self.buf_pos.seq_pos@, self.b().len() as int)
+                [C01,C03,C04|fasta._search.loop_exit] partial(self.b(), self.buf_pos.start as int, self.buf_pos.seq_pos@, self.b().len() as int)
                     && self.same_io(old(self)) && self.state == old(self).state,
             decreases vx_mc.hay().len() - vx_mc.at(),
 //---pre
@@ -304,15 +304,15 @@ pub mod fasta {
             old(self).buf_reader.wf(),
             partial(old(self).b(), old(self).buf_pos.start as int, old(self).buf_pos.seq_pos@, old(self).search_pos as int),
         ensures
-            [C01,C06|fasta.search.frame] final(self).same_io(old(self)),
-            [C01|fasta.search.found] r matches Ok(true) ==> (
+            [C01,C03,C04,C05,C06|fasta.search.frame] final(self).same_io(old(self)),
+            [C01,C03,C04|fasta.search.found] r matches Ok(true) ==> (
                 (complete(final(self).b(), final(self).buf_pos.start as int, final(self).buf_pos.seq_pos@, final(self).search_pos as int) && final(self).state == old(self).state)
                 || (eofrec(final(self).b(), final(self).buf_pos.start as int, final(self).buf_pos.seq_pos@, final(self).search_pos as int)
                     && final(self).state == State::Finished && final(self).b().len() < final(self).buf_reader.cap())),
-            [C01|fasta.search.incomplete] r matches Ok(false) ==> partial(final(self).b(), final(self).buf_pos.start as int, final(self).buf_pos.seq_pos@, final(self).search_pos as int)
+            [C01,C03,C04|fasta.search.incomplete] r matches Ok(false) ==> partial(final(self).b(), final(self).buf_pos.start as int, final(self).buf_pos.seq_pos@, final(self).search_pos as int)
                 && at_end(final(self).b(), final(self).search_pos as int) && final(self).state == State::Incomplete
                 && final(self).b().len() >= final(self).buf_reader.cap(),
-            [C01,C06|fasta.search.no_error] r is Ok,
+            [C01,C03,C06,C14,C17|fasta.search.no_error] r is Ok,
 //@at depth=2 kw=return nth=1 expect="return Ok\(true\);"
             proof { assert(spv(self.buf_pos.seq_pos@) =~= lfs(self.b(), self.buf_pos.start as int, self.search_pos as int).push(self.search_pos as int)); }
 //@end
@@ -324,10 +324,10 @@ pub mod fasta {
             old(self).position.byte + (old(self).search_pos - old(self).buf_pos.start) <= u64::MAX,
             old(self).position.line + old(self).buf_pos.seq_pos@.len() <= u64::MAX,
         ensures
-            [C05,C03|fasta.increment_record.byte] final(self).position.byte == old(self).position.byte + (old(self).search_pos - old(self).buf_pos.start),
-            [C05,C03|fasta.increment_record.line] final(self).position.line == old(self).position.line + old(self).buf_pos.seq_pos@.len(),
-            [C05,C04,C01|fasta.increment_record.start] final(self).buf_pos.start == old(self).search_pos && final(self).buf_pos.seq_pos@.len() == 0,
-            [C05,C06|fasta.increment_record.frame] final(self).buf_reader == old(self).buf_reader && final(self).buf_policy == old(self).buf_policy
+            [C01,C03,C04,C05|fasta.increment_record.byte] final(self).position.byte == old(self).position.byte + (old(self).search_pos - old(self).buf_pos.start),
+            [C01,C03,C04,C05|fasta.increment_record.line] final(self).position.line == old(self).position.line + old(self).buf_pos.seq_pos@.len(),
+            [C01,C03,C04,C05|fasta.increment_record.start] final(self).buf_pos.start == old(self).search_pos && final(self).buf_pos.seq_pos@.len() == 0,
+            [C01,C03,C04,C05,C06|fasta.increment_record.frame] final(self).buf_reader == old(self).buf_reader && final(self).buf_policy == old(self).buf_policy
                 && final(self).state == old(self).state && final(self).search_pos == old(self).search_pos,
 //@end
 
@@ -336,7 +336,7 @@ pub mod fasta {
         requires
             old(self).wf0(),
         ensures
-            [C09,C03,C06|fasta.grow.frame] final(self).buf_reader.buf() == old(self).buf_reader.buf() && final(self).buf_reader.base() == old(self).buf_reader.base()
+            [C01,C03,C04,C05,C06,C09|fasta.grow.frame] final(self).buf_reader.buf() == old(self).buf_reader.buf() && final(self).buf_reader.base() == old(self).buf_reader.base()
                 && final(self).buf_reader.same_source(&old(self).buf_reader)
                 && final(self).buf_pos == old(self).buf_pos && final(self).position == old(self).position
                 && final(self).state == old(self).state && final(self).search_pos == old(self).search_pos
@@ -354,16 +354,16 @@ pub mod fasta {
             old(self).wf0(),
             partial(old(self).b(), old(self).buf_pos.start as int, old(self).buf_pos.seq_pos@, old(self).search_pos as int),
         ensures
-            [C03,C06|fasta.make_room.window] final(self).wf0() && final(self).buf_reader.cap() == old(self).buf_reader.cap()
+            [C01,C03,C04,C05,C06|fasta.make_room.window] final(self).wf0() && final(self).buf_reader.cap() == old(self).buf_reader.cap()
                 && final(self).b() == old(self).b().subrange(old(self).buf_pos.start as int, old(self).b().len() as int)
                 && final(self).base() == old(self).base() + old(self).buf_pos.start
                 && final(self).buf_reader.same_source(&old(self).buf_reader),
-            [C03,C05|fasta.make_room.offsets_shifted] final(self).buf_pos.start == 0
+            [C01,C03,C04,C05|fasta.make_room.offsets_shifted] final(self).buf_pos.start == 0
                 && final(self).search_pos == old(self).search_pos - old(self).buf_pos.start
                 && spv(final(self).buf_pos.seq_pos@) == shl(spv(old(self).buf_pos.seq_pos@), -(old(self).buf_pos.start as int))
                 && partial(final(self).b(), 0, final(self).buf_pos.seq_pos@, final(self).search_pos as int)
                 && (at_end(old(self).b(), old(self).search_pos as int) ==> at_end(final(self).b(), final(self).search_pos as int)),
-            [C03,C06|fasta.make_room.frame] final(self).position == old(self).position && final(self).state == old(self).state
+            [C01,C03,C04,C05,C06|fasta.make_room.frame] final(self).position == old(self).position && final(self).state == old(self).state
                 && final(self).buf_policy == old(self).buf_policy,
 //@body_start
         let ghost old_sp = self.buf_pos.seq_pos@;
@@ -407,36 +407,36 @@ pub mod fasta {
         requires
             old(self).wf0(), old(self).buf_reader.cap() >= 2, old(self).base() == 0, old(self).position.byte == 0,
         ensures
-            [C06,C14|fasta.first_byte.frame] final(self).wf0() && final(self).f() == old(self).f() && final(self).buf_policy == old(self).buf_policy
+            [C01,C03,C04,C05,C06,C14|fasta.first_byte.frame] final(self).wf0() && final(self).f() == old(self).f() && final(self).buf_policy == old(self).buf_policy
                 && final(self).buf_reader.cap() == old(self).buf_reader.cap() && final(self).position.line == old(self).position.line
                 && final(self).state == old(self).state && final(self).buf_pos == old(self).buf_pos && final(self).search_pos == old(self).search_pos
                 && final(self).base() <= final(self).f().len(),
-            [C05,C06|fasta.first_byte.byte_position_follows_buffer] final(self).position.byte == final(self).base(),
-            [C01,C03,C05,C17|fasta.first_byte.found] r matches Ok(Some(t)) ==> final(self).buf_reader.errs() == old(self).buf_reader.errs()
+            [C03,C05,C06|fasta.first_byte.byte_position_follows_buffer] final(self).position.byte == final(self).base(),
+            [C01,C03,C04,C05,C17|fasta.first_byte.found] r matches Ok(Some(t)) ==> final(self).buf_reader.errs() == old(self).buf_reader.errs()
                 && t.1 < final(self).b().len() && final(self).b()[t.1 as int] == t.2 && final(self).filled()
                 && final(self).base() + t.1 == first_nonblank(final(self).f(), 0)
                 && t.0 == true_line(final(self).f(), final(self).base() + t.1),
-            [C01|fasta.first_byte.empty] r matches Ok(None) ==> final(self).buf_reader.errs() == old(self).buf_reader.errs() && final(self).filled()
+            [C01,C03,C04|fasta.first_byte.empty] r matches Ok(None) ==> final(self).buf_reader.errs() == old(self).buf_reader.errs() && final(self).filled()
                 && (old(self).fresh() ==> first_nonblank(final(self).f(), 0) == final(self).f().len()),
-            [C14|fasta.first_byte.err] r matches Err(e) ==> (e matches Error::Io(x) && final(self).buf_reader.errs() == old(self).buf_reader.errs().push(x)),
+            [C01,C03,C14,C17|fasta.first_byte.err] r matches Err(e) ==> (e matches Error::Io(x) && final(self).buf_reader.errs() == old(self).buf_reader.errs().push(x)),
 //@loop 0 kw=while
             invariant
-                [C06,C14|fasta.first_byte.outer.frame] self.wf0() && self.f() == old(self).f() && self.buf_policy == old(self).buf_policy
+                [C01,C03,C04,C05,C06,C14|fasta.first_byte.outer.frame] self.wf0() && self.f() == old(self).f() && self.buf_policy == old(self).buf_policy
                     && self.buf_reader.cap() == old(self).buf_reader.cap() && self.position.line == old(self).position.line
                     && self.state == old(self).state && self.buf_pos == old(self).buf_pos && self.search_pos == old(self).search_pos
                     && self.buf_reader.errs() == old(self).buf_reader.errs() && self.buf_reader.cap() >= 2
                     && self.position.byte == self.base() && line_num <= self.base() && (self.b().len() > 0 ==> self.base() + self.b().len() <= self.f().len()),
-                [C01,C03,C05,C17|fasta.first_byte.outer.skipped_blank_lines] self.base() <= self.f().len()
+                [C01,C03,C04,C05,C17|fasta.first_byte.outer.skipped_blank_lines] self.base() <= self.f().len()
                     && first_nonblank(self.f(), 0) == first_nonblank(self.f(), self.base())
                     && line_num == count_lf(self.f(), self.base()),
-                [C01|fasta.first_byte.outer.leftover_is_blank] old(self).fresh() ==> self.b().len() <= 1 && blank(self.b()) && nl(self.b(), 0) == self.b().len(),
+                [C01,C03,C04|fasta.first_byte.outer.leftover_is_blank] old(self).fresh() ==> self.b().len() <= 1 && blank(self.b()) && nl(self.b(), 0) == self.b().len(),
             decreases
                 (if self.base() + self.b().len() <= self.f().len() { self.f().len() - self.base() - self.b().len() } else { 0 }),
 //@closure 0 params="b: &u8" ret="(r: bool)"
             ensures r == (*b == 10u8)
 //@loop 1 r8=vx_sp
             invariant
-                [C06,C14|fasta.first_byte.inner.frame] self.wf0() && self.f() == old(self).f() && self.buf_policy == old(self).buf_policy
+                [C01,C03,C04,C05,C06,C14|fasta.first_byte.inner.frame] self.wf0() && self.f() == old(self).f() && self.buf_policy == old(self).buf_policy
                     && self.buf_reader.cap() == old(self).buf_reader.cap() && self.position.line == old(self).position.line
                     && self.state == old(self).state && self.buf_pos == old(self).buf_pos && self.search_pos == old(self).search_pos
                     && self.buf_reader.errs() == old(self).buf_reader.errs() && self.buf_reader.cap() >= 2 && self.filled()
@@ -446,7 +446,7 @@ pub mod fasta {
                 decides_eq(split_pred(&vx_sp), 10u8),
                 !split_done(&vx_sp) ==> pos <= self.b().len() && split_rest(&vx_sp) == self.b().subrange(pos as int, self.b().len() as int),
                 split_done(&vx_sp) ==> pos == self.b().len() + 1 && last_line_len <= self.b().len(),
-                [C01,C03,C05,C17|fasta.first_byte.inner.skipped_blank_lines] ({
+                [C01,C03,C04,C05,C17|fasta.first_byte.inner.skipped_blank_lines] ({
                     &&& (!split_done(&vx_sp) ==> first_nonblank(self.f(), 0) == first_nonblank(self.f(), self.base() + pos)
                             && line_num == count_lf(self.f(), self.base() + pos))
                     &&& (split_done(&vx_sp) ==> ({
@@ -459,7 +459,7 @@ pub mod fasta {
             ensures
                 pos == self.b().len() + 1 && last_line_len <= self.b().len() && 1 <= line_num
                     && line_num <= self.base() + self.b().len() - last_line_len + 1 && self.base() + self.b().len() <= self.f().len(),
-                [C01,C03,C05,C17|fasta.first_byte.inner.exit] ({
+                [C01,C03,C04,C05,C17|fasta.first_byte.inner.exit] ({
                             let lp = self.b().len() - last_line_len;
                             &&& first_nonblank(self.f(), 0) == first_nonblank(self.f(), self.base() + lp)
                             &&& line_num == count_lf(self.f(), self.base() + lp) + 1
@@ -525,20 +525,20 @@ pub mod fasta {
         requires
             old(self).wf0(), old(self).buf_reader.cap() >= 2, old(self).state == State::New, old(self).base() == 0, old(self).position.byte == 0, old(self).buf_pos.start == 0,
         ensures
-            [C06,C14|fasta.init.frame] final(self).wf0() && final(self).f() == old(self).f() && final(self).buf_policy == old(self).buf_policy
+            [C01,C03,C04,C05,C06,C14|fasta.init.frame] final(self).wf0() && final(self).f() == old(self).f() && final(self).buf_policy == old(self).buf_policy
                 && final(self).buf_reader.cap() == old(self).buf_reader.cap() && final(self).base() <= final(self).f().len()
                 && final(self).position.byte == final(self).base() + final(self).buf_pos.start
                 && (r matches Ok(true) || (final(self).buf_pos == old(self).buf_pos && final(self).search_pos == old(self).search_pos)),
-            [C01,C03,C05|fasta.init.first_record] r matches Ok(true) ==> final(self).buf_reader.errs() == old(self).buf_reader.errs()
+            [C01,C03,C04,C05|fasta.init.first_record] r matches Ok(true) ==> final(self).buf_reader.errs() == old(self).buf_reader.errs()
                 && final(self).state == State::New && final(self).filled()
                 && final(self).buf_pos.start < final(self).b().len() && final(self).b()[final(self).buf_pos.start as int] == 62u8
                 && final(self).search_pos == final(self).buf_pos.start + 1 && final(self).buf_pos.seq_pos@ == old(self).buf_pos.seq_pos@
                 && final(self).base() + final(self).buf_pos.start == first_nonblank(final(self).f(), 0)
                 && final(self).position.byte == first_nonblank(final(self).f(), 0)
                 && final(self).position.line == true_line(final(self).f(), first_nonblank(final(self).f(), 0)),
-            [C01|fasta.init.empty] r matches Ok(false) ==> final(self).buf_reader.errs() == old(self).buf_reader.errs() && final(self).state == State::Finished && final(self).filled()
+            [C01,C03,C04|fasta.init.empty] r matches Ok(false) ==> final(self).buf_reader.errs() == old(self).buf_reader.errs() && final(self).state == State::Finished && final(self).filled()
                 && (old(self).fresh() ==> first_nonblank(final(self).f(), 0) == final(self).f().len()),
-            [C01,C17,C14|fasta.init.err] r matches Err(e) ==> match e {
+            [C01,C03,C14,C17|fasta.init.err] r matches Err(e) ==> match e {
                 Error::Io(x) => final(self).buf_reader.errs() == old(self).buf_reader.errs().push(x) && final(self).state == State::Finished,
                 Error::InvalidStart { line, found } => final(self).buf_reader.errs() == old(self).buf_reader.errs() && final(self).state == State::Finished
                     && final(self).filled()
@@ -591,23 +591,21 @@ pub mod fasta {
             old(self).state == State::Incomplete,
             old(self).clean() ==> old(self).b().len() == old(self).buf_reader.cap() && at_end(old(self).b(), old(self).search_pos as int),
         ensures
-            [C03,C05,C06|fasta.resume.frame] final(self).wf0() && final(self).f() == old(self).f() && final(self).gpos() == old(self).gpos()
+            [C01,C03,C04,C05,C06|fasta.resume.frame] final(self).wf0() && final(self).f() == old(self).f() && final(self).gpos() == old(self).gpos()
                 && final(self).position == old(self).position && final(self).filled() && final(self).buf_pos.start < final(self).b().len()
                 && final(self).b()[final(self).buf_pos.start as int] == old(self).b()[old(self).buf_pos.start as int]
                 && final(self).buf_pos.start <= final(self).search_pos <= final(self).b().len(),
-            [C01,C03|fasta.resume.found] r matches Ok(found) ==> found && final(self).buf_reader.errs() == old(self).buf_reader.errs()
+            [C01,C03,C04|fasta.resume.found] r matches Ok(found) ==> found && final(self).buf_reader.errs() == old(self).buf_reader.errs()
                 && ((complete(final(self).b(), final(self).buf_pos.start as int, final(self).buf_pos.seq_pos@, final(self).search_pos as int) && final(self).state == State::Incomplete)
                     || (eofrec(final(self).b(), final(self).buf_pos.start as int, final(self).buf_pos.seq_pos@, final(self).search_pos as int) && final(self).state == State::Finished
                         && final(self).b().len() < final(self).buf_reader.cap())),
-            [C14,C09|fasta.resume.err] r matches Err(e) ==> final(self).state == State::Incomplete
-                && partial(final(self).b(), final(self).buf_pos.start as int, final(self).buf_pos.seq_pos@, final(self).search_pos as int)
-                && match e {
-                    Error::Io(x) => final(self).buf_reader.errs() == old(self).buf_reader.errs().push(x),
-                    Error::BufferLimit => final(self).buf_reader.errs() == old(self).buf_reader.errs()
-                        && (final(self).clean() ==> at_end(final(self).b(), final(self).search_pos as int) && final(self).b().len() == final(self).buf_reader.cap()),
-                    _ => false,
-                },
-            [C04,C03|fasta.resume.no_compaction_when_told] !make_room ==> final(self).base() == old(self).base()
+            [C01,C03,C04,C06|fasta.resume.err_keeps_scan] r is Err ==> final(self).state == State::Incomplete
+                && partial(final(self).b(), final(self).buf_pos.start as int, final(self).buf_pos.seq_pos@, final(self).search_pos as int),
+            [C14|fasta.resume.err_io] r matches Err(e) ==> (e matches Error::Io(x) ==> final(self).buf_reader.errs() == old(self).buf_reader.errs().push(x)),
+            [C09,C06|fasta.resume.err_limit] r matches Err(e) ==> (e is BufferLimit ==> final(self).buf_reader.errs() == old(self).buf_reader.errs()
+                        && (final(self).clean() ==> at_end(final(self).b(), final(self).search_pos as int) && final(self).b().len() == final(self).buf_reader.cap())),
+            [C01,C06|fasta.resume.err_kinds] r matches Err(e) ==> e is Io || e is BufferLimit,
+            [C01,C03,C04|fasta.resume.no_compaction_when_told] !make_room ==> final(self).base() == old(self).base()
                 && final(self).buf_pos.start == old(self).buf_pos.start
                 && old(self).b().len() <= final(self).b().len() && final(self).b().subrange(0, old(self).b().len() as int) == old(self).b(),
             [C09|fasta.resume.capacity_monotone] final(self).buf_reader.cap() >= old(self).buf_reader.cap(),
@@ -616,12 +614,12 @@ pub mod fasta {
                 no_bnd(final(self).f(), final(self).gpos(), final(self).gpos() + old(self).buf_reader.cap() - 1),
 //@loop 0 kw=loop
             invariant
-                [C03,C06|fasta.resume.inv.frame] self.wf0() && self.filled() && self.f() == old(self).f() && self.gpos() == old(self).gpos()
+                [C01,C03,C04,C05,C06|fasta.resume.inv.frame] self.wf0() && self.filled() && self.f() == old(self).f() && self.gpos() == old(self).gpos()
                     && self.position == old(self).position && self.buf_reader.cap() >= 2 && self.state == State::Incomplete
                     && self.buf_pos.start < self.b().len() && self.b()[self.buf_pos.start as int] == old(self).b()[old(self).buf_pos.start as int],
-                [C01,C03|fasta.resume.inv.partial] partial(self.b(), self.buf_pos.start as int, self.buf_pos.seq_pos@, self.search_pos as int),
+                [C01,C03,C04|fasta.resume.inv.partial] partial(self.b(), self.buf_pos.start as int, self.buf_pos.seq_pos@, self.search_pos as int),
                 [C14|fasta.resume.inv.errs] self.buf_reader.errs() == old(self).buf_reader.errs(),
-                [C04,C03|fasta.resume.inv.no_compaction] !make_room ==> self.base() == old(self).base() && self.buf_pos.start == old(self).buf_pos.start
+                [C01,C03,C04|fasta.resume.inv.no_compaction] !make_room ==> self.base() == old(self).base() && self.buf_pos.start == old(self).buf_pos.start
                     && old(self).b().len() <= self.b().len() && self.b().subrange(0, old(self).b().len() as int) == old(self).b(),
                 [C09|fasta.resume.inv.capacity] self.buf_reader.cap() >= old(self).buf_reader.cap()
                     && (make_room && old(self).clean()
@@ -637,7 +635,7 @@ pub mod fasta {
                         lemma_no_bnd_lift(self.f(), self.base(), self.b(), 0, e);
                     }
                 }
-//@at depth=2 kw=fill_buf nth=0
+//@at depth=2 nth=1
             let ghost b_before = self.b();
             proof {
                 // whatever the refill appends (also when it fails half-way), the scanned part stays valid
@@ -666,11 +664,11 @@ pub mod fasta {
         requires
             old(self).wf(),
         ensures
-            [C06|fasta.next.wf] final(self).wf() && final(self).f() == old(self).f(),
-            [C01,C06|fasta.next.end] r is None ==> final(self).buf_reader.errs() == old(self).buf_reader.errs() && final(self).state == State::Finished
+            [C01,C03,C04,C05,C06|fasta.next.wf] final(self).wf() && final(self).f() == old(self).f(),
+            [C01,C03,C04,C06|fasta.next.end] r is None ==> final(self).buf_reader.errs() == old(self).buf_reader.errs() && final(self).state == State::Finished
                 && (old(self).state == State::Finished || (old(self).state == State::New
                     && (old(self).fresh() ==> first_nonblank(old(self).f(), 0) == old(self).f().len()))),
-            [C01,C03,C06,C12|fasta.next.record] r matches Some(Ok(rec)) ==> final(self).buf_reader.errs() == old(self).buf_reader.errs()
+            [C01,C03,C04,C06,C12|fasta.next.record] r matches Some(Ok(rec)) ==> final(self).buf_reader.errs() == old(self).buf_reader.errs()
                 && old(self).state != State::Finished
                 && rec.buffer@ == final(self).b() && rec.buf_pos.same_as(&final(self).buf_pos) && rec.buf_pos.rwf(rec.buffer@)
                 && (final(self).state == State::Parsing || final(self).state == State::Finished)
@@ -682,9 +680,9 @@ pub mod fasta {
                     &&& (final(self).state == State::Parsing ==> complete_l(ff, p, l, e))
                     &&& (final(self).state == State::Finished ==> eofrec_l(ff, p, l, e))
                 })),
-            [C05,C03|fasta.next.position] r matches Some(Ok(rec)) && !old(self).poisoned() && old(self).clean() ==>
+            [C03,C05|fasta.next.position] r matches Some(Ok(rec)) && !old(self).poisoned() && old(self).clean() ==>
                 final(self).position.byte == old(self).cursor() && final(self).position.line == true_line(old(self).f(), old(self).cursor()),
-            [C01,C14,C17,C06|fasta.next.error] r matches Some(Err(e)) ==> match e {
+            [C01,C03,C06,C14,C17|fasta.next.error] r matches Some(Err(e)) ==> match e {
                     Error::Io(x) => final(self).buf_reader.errs() == old(self).buf_reader.errs().push(x),
                     Error::BufferLimit => final(self).buf_reader.errs() == old(self).buf_reader.errs() && final(self).state == State::Incomplete,
                     Error::InvalidStart { line, found } => final(self).buf_reader.errs() == old(self).buf_reader.errs() && final(self).state == State::Finished
@@ -736,12 +734,12 @@ pub mod fasta {
             to.line == true_line(old(self).f(), to.byte as int),
             old(self).state == State::Finished ==> old(self).position.byte == old(self).gpos() && old(self).position.byte <= old(self).f().len() + 1,
         ensures
-            [C05,C06|fasta.seek.frame] final(self).f() == old(self).f() && final(self).buf_policy == old(self).buf_policy,
-            [C05,C03|fasta.seek.positioned] r is Ok ==> final(self).wf() && final(self).state == State::Positioned
+            [C01,C03,C04,C05,C06|fasta.seek.frame] final(self).f() == old(self).f() && final(self).buf_policy == old(self).buf_policy,
+            [C03,C05|fasta.seek.positioned] r is Ok ==> final(self).wf() && final(self).state == State::Positioned
                 && final(self).position == *to && final(self).gpos() == to.byte && final(self).cursor() == to.byte
                 && final(self).buf_reader.errs() == old(self).buf_reader.errs(),
             [C09|fasta.seek.capacity] final(self).buf_reader.cap() == old(self).buf_reader.cap(),
-            [C14|fasta.seek.err] r matches Err(e) ==> (e matches Error::Io(x) && final(self).buf_reader.errs() == old(self).buf_reader.errs().push(x)),
+            [C01,C03,C14,C17|fasta.seek.err] r matches Err(e) ==> (e matches Error::Io(x) && final(self).buf_reader.errs() == old(self).buf_reader.errs().push(x)),
 //@end
 }
 
@@ -751,7 +749,7 @@ pub mod fasta {
         requires
             3 <= capacity <= isize::MAX,
         ensures
-            [C06,C01|fasta.with_capacity.fresh] r.wf() && r.state == State::New && r.fresh(),
+            [C01,C03,C04,C05,C06|fasta.with_capacity.fresh] r.wf() && r.state == State::New && r.fresh(),
             [C09|fasta.with_capacity.capacity] r.buf_reader.cap() >= capacity,
 //@end
 }
